@@ -630,6 +630,7 @@ htp_status_t htp_connp_REQ_HEADERS(htp_connp_t *connp) {
 
             htp_connp_req_clear_buffer(connp);
 
+            HTP_VERIF_TP(connp, connp->in_tx, "req_headers_closed");
             connp->in_tx->request_progress = HTP_REQUEST_TRAILER;
 
             // We've seen all the request headers.
@@ -916,6 +917,7 @@ htp_status_t htp_connp_REQ_FINALIZE(htp_connp_t *connp) {
         } // else continue
         if (connp->in_body_data_left <= 0) {
             // log only once per transaction
+            HTP_VERIF_TP(connp, connp->in_tx, "req_finalize_body");
             htp_log(connp, HTP_LOG_MARK, HTP_LOG_WARNING, 0, "Unexpected request body");
         } else {
             connp->in_body_data_left = 1;
